@@ -150,6 +150,23 @@ theorem link_bm_t1 (c : BchInst) (hc : c ∈ Generated.C03B.instances) (hd : 2 <
     (fun m => f.codeword_lt m) hesn hdiv hds hsmall
     (fun m e hm' he => C02.bm_corrects_t1 c hc hd m e hm' (hesn e he) (hw e he))
 
+/-- **BCH code (δ ≥ 5) + Berlekamp–Massey (t = 2) over any catalogue constellation**: at most two flipped code bits per block and every
+symbol displaced by less than half the minimum distance — the link returns the message (decoder hypothesis: `C02.bm_corrects_t2`) -/
+theorem link_bm_t2 (c : BchInst) (hc : c ∈ Generated.C03B.instances) (hd : 4 < c.delta) (hk : 0 < c.k) (hn : 0 < c.n)
+    (i : Inst) (hi : i ∈ Generated.C14.instances) (hb : 0 < i.table.b)
+    (msgs : List (List Bool)) (es : List Nat) (ds : List (Int × Int))
+    (hm : ∀ b ∈ msgs, b.length = c.k) (hes : es.length = msgs.length) (hesn : ∀ e ∈ es, e < 2 ^ c.n)
+    (hw : ∀ e ∈ es, weight c.n e ≤ 2)
+    (hdiv : (msgs.length * c.n) % i.table.b = 0)
+    (hds : ds.length = msgs.length * c.n / i.table.b) (hsmall : ∀ d ∈ ds, 4 * (d.1 * d.1 + d.2 * d.2) < i.lo) :
+    link c.k c.n c.G i.table (fun r => invEncode c.R (Kaira.BM.correct c.P c.m 2 c.n r))
+      (chanSub i.table ((es.map (bitsOf c.n)).flatten) ds) msgs.flatten = some msgs.flatten := by
+  obtain ⟨hlab, hlo, hpair⟩ := C14.labels_and_spacing i hi
+  have f := BCHBound.facts_of_ok c (C03.bch_ok c hc)
+  exact link_chanSub c.k c.n hk hn c.G i.table hb i.lo hlo hpair hlab _ msgs es ds hm hes
+    (fun m => f.codeword_lt m) hesn hdiv hds hsmall
+    (fun m e hm' he => C02.bm_corrects_t2 c hc hd m e hm' (hesn e he) (hw e he))
+
 /-! ## non-vacuity: (7,4) Hamming-like generator, QPSK-like table, two blocks -/
 example : link 2 4 [0b0111, 0b1011] ⟨1, [⟨-1, 0, 0⟩, ⟨1, 0, 1⟩]⟩ (mlDecode [0b0111, 0b1011] 4 2) id
     [true, false, false, true] = some [true, false, false, true] := by decide +kernel
